@@ -300,6 +300,42 @@ impl Scenario for C16 {
             Tier::Quick => (7u64, 5u64),
             Tier::Thorough => (1, 1),
         };
+        if idx % 4 == 3 {
+            // HTTP/2 victim: three overlapping streams on one connection,
+            // which the client drops at every virtual ms
+            let mut r = Rng::derive(mix(seed, idx), "c16-h2-base");
+            let mut b2 = base.clone();
+            let mut c = blank_conn(1000);
+            c.kind = ConnKind::H2;
+            c.c2s = gen_wire(&mut r, false);
+            let mut longest = 0;
+            for j in 0..3 {
+                let w = WorkReq {
+                    nonce: 500 + j as u64,
+                    steps: r.range(1, 4) as u32,
+                    step_ms: r.range(100, 700),
+                    panic_at: 0,
+                    resp_bytes: *r.pick(&[0usize, 100, 3000]),
+                    body: if r.chance(1, 3) { let n = r.usize_in(1, 200); Some(r.bytes(n)) } else { None },
+                    chunked: None,
+                };
+                longest = longest.max(u64::from(w.steps) * w.step_ms);
+                c.h2.push(w.h2(j, r.range(0, 60)));
+                c.reqs.push(w.plan());
+            }
+            b2.conns[0] = c;
+            for kind in 0..2u64 {
+                let mut t = 0;
+                while t <= longest + 120 {
+                    let mut p = b2.clone();
+                    p.conns[0].steps = vec![Step::Until { ms: t }, disconnect_step(kind)];
+                    p.note = format!("{} / h2 client leaves (kind {kind}) at {t} ms", base.note);
+                    execute(self, &p, sink, true);
+                    t += tstep;
+                }
+            }
+            return;
+        }
         for kind in 0..3u64 {
             // 1. every byte offset of the request
             for k in 0..vbytes.len() {
